@@ -291,6 +291,7 @@ type treeExec struct {
 	named    map[int]string
 	lastCall map[int]*flamego.Route
 	curHdr   map[int][]hdrC // call -> constraints in force
+	serveN   int            // requests served so far (drives the variants below)
 	emptyHdr int            // how a header whose value is "" is sent: 0 left out, 1 present with "", 2 present with no values
 	last     serveOut       // what the handler of the current request observed (out of band: lossless, works for HEAD)
 }
@@ -530,6 +531,7 @@ func (x *treeExec) serve(m, raw string, hdr map[string]string) (o serveOut) {
 			h[http.CanonicalHeaderKey(k)] = []string{} // the name is present with NO value at all
 		}
 	}
+	x.serveN++
 	if x.via == "tree" {
 		o.chains = 1
 		tr, ok := x.trees[m]
@@ -557,6 +559,11 @@ func (x *treeExec) serve(m, raw string, hdr map[string]string) (o serveOut) {
 	x.last = serveOut{}
 	w := httptest.NewRecorder()
 	req := &http.Request{Method: m, URL: &url.URL{Path: raw}, Header: h, Proto: "HTTP/1.1", ProtoMajor: 1, ProtoMinor: 1, Host: "x"}
+	if x.serveN%3 == 0 {
+		// the path as the client SENT it differed from the default encoding (net/http then keeps it in RawPath, e.g. a
+		// redundantly escaped letter): routing and parameters are defined on URL.Path, the sent form is only a hint
+		req.URL.RawPath = redundantEscape(raw)
+	}
 	x.f.ServeHTTP(w, req)
 	o = x.last
 	o.chains = x.chains
@@ -1047,6 +1054,25 @@ func insertPair(pairs []string, where int, k, v string) []string {
 	out := append([]string{}, pairs[:at]...)
 	out = append(out, k, v)
 	return append(out, pairs[at:]...)
+}
+
+// redundantEscape spells the first ASCII letter or digit of every segment as %XX: a valid but non-default encoding of p.
+func redundantEscape(p string) string {
+	var b strings.Builder
+	fresh := true
+	for i := 0; i < len(p); i++ {
+		c := p[i]
+		if fresh && (c >= 'a' && c <= 'z' || c >= 'A' && c <= 'Z' || c >= '0' && c <= '9') {
+			fmt.Fprintf(&b, "%%%02X", c)
+			fresh = false
+			continue
+		}
+		if c == '/' {
+			fresh = true
+		}
+		b.WriteByte(c)
+	}
+	return b.String()
 }
 
 func min(a, b int) int {
